@@ -19,26 +19,36 @@
    goes wrong.
 
    The model follows the code AS FOUND where `Code` (a set of deviation names) says so; Code = {} is the pair in
-   which C15 holds.  Each deviation has been observed on the real pair by harness/props/c15.py:
+   which C15 holds.  Each deviation has been observed on the real pair by harness/props/c15.py (which also reports,
+   as a DRIFT note, a deviation it no longer observes):
 
+   producer side (what the passes let through to the writer)
      skipped_value      IntrospectablePass._introspectable_param_analysis returns early for a (skip)ped parameter /
-                        return value: a callable whose skipped value has no transfer default or an unresolved type
-                        stays introspectable (writer: no transfer-ownership attribute, <type> without name)
+                        return value: a callable whose skipped value has no transfer default stays introspectable
+                        (writer: no transfer-ownership attribute, which start_parameter / start_return_value require)
      constant_type      the type of a constant is never analysed: unresolved type -> <type> without name
+                        (long long -> name "long long", gpointer -> a constant of type void: same hole)
      hidden_target      invoker= / setter= / getter= / glib:set-property= / glib:type-struct= keep naming a member or
                         type that is itself not introspectable
      callback_field     a field whose callback type is (skip)ped is not marked itself
      shadower_hidden    shadowed-by stays although the function that shadows is not introspectable
-     alias_first_pass   the consumer's first pass reads every <alias>, introspectable="0" or not
+   consumer side
+     alias_first_pass   the first pass reads every <alias>, introspectable="0" or not
      alias_attribute    <attribute> inside <alias>: no node on the stack, "element attribute ... is unknown"
      nested_same_kind   <record> directly inside <record> (<union> inside <union>): state_switch to the same state
-     field_kept         a field marked introspectable="0" is kept (as gpointer)
+     field_kept         a field marked introspectable="0" is kept (as gpointer; deliberate: the layout needs it)
      member_kept        an enumeration member marked introspectable="0" is kept
      inout_allow_none   allow-none="1" on an inout parameter (the writer adds it to nullable="1") is read as optional
-     property_deprecated  start_property does not read `deprecated`
      field_readable     readable="0" is read as readable, readable="1" as not readable
-     skip_return        skip="1" on a return value reaches the typelib only for functions (not callbacks, signals, vfuncs)
      silent_index       get_index_of_member_type: a name that is not found yields the LAST member of that kind, not -1
+     inout_caller_allocates  the scanner may state caller-allocates="1" for an inout parameter; start_parameter reads the attribute for "out" only
+     when_must_collect  (producer) a signal without run stage is written when="must-collect", a value the contract does not list
+   repaired in /repo (kept as what-if switches: Accept_w_<d>.cfg adds d to the code as it is now and must fail)
+     skipped_value 5501abd   constant_type e2183ca   callback_field 541fd0b   alias_first_pass 7e9f6e2   alias_attribute 6f692f2
+     property_deprecated 43698fe (start_property did not read `deprecated`)
+     skip_return ca5fac5 (skip="1" on a return value reached the typelib only for functions)
+   the others are recorded findings (known_findings.json, ids C15-...): AcceptMC's main configurations run with Code = Known = those,
+   Accept_k_<d>.cfg takes d out of Known and must fail, Accept_ideal.cfg is Code = Known = {}.
 
    The PROPERTY LAYER is AcceptProp.tla (observables only); AcceptMC.tla checks  consumer(producer(n)) |= AcceptProp
    for every node of bounded families, AcceptTrace.tla evaluates the same clauses on the real pair.                *)
@@ -48,7 +58,7 @@ CONSTANT Code                       \* deviation names present in the modelled p
 
 DeviationNames == {"skipped_value", "constant_type", "hidden_target", "callback_field", "shadower_hidden", "alias_first_pass",
                    "alias_attribute", "nested_same_kind", "field_kept", "member_kept", "inout_allow_none", "property_deprecated",
-                   "field_readable", "skip_return", "silent_index"}
+                   "field_readable", "skip_return", "silent_index", "when_must_collect", "inout_caller_allocates"}
 ASSUME Code \subseteq DeviationNames
 Dev(d) == d \in Code
 
@@ -63,8 +73,8 @@ Get(at, n) == IF \E i \in 1..Len(at) : at[i][1] = n
               THEN at[CHOOSE i \in 1..Len(at) : at[i][1] = n /\ \A j \in 1..(i - 1) : at[j][1] # n][2] ELSE NoVal
 Has(at, n) == \E i \in 1..Len(at) : at[i][1] = n
 GetOr(at, n, d) == IF Has(at, n) THEN Get(at, n) ELSE d
-RECURSIVE Flat(_)
-Flat(ss) == IF ss = <<>> THEN <<>> ELSE Head(ss) \o Flat(Tail(ss))
+\* (folds instead of recursive operators wherever a document is built or scanned: eager, no lazily nested arguments)
+Flat(ss) == FoldLeft(LAMBDA acc, x : acc \o x, <<>>, ss)
 B01(b) == IF b THEN "1" ELSE "0"
 IntStr(i) == CASE i = 0 -> "0" [] i = 1 -> "1" [] i = 2 -> "2" [] i = 3 -> "3" [] OTHER -> "9"
 StrInt(s) == CASE s = "0" -> 0 [] s = "1" -> 1 [] s = "2" -> 2 [] s = "3" -> 3 [] s = "9" -> 9 [] OTHER -> 0    \* atoi
@@ -216,7 +226,7 @@ WRepository(nodes) ==
 InitCtx(aliases, aerr) == [st |-> "START", prev |-> "NONE", depth |-> 0, stack |-> <<>>, typed |-> 0, typeDepth |-> 0, embedded |-> "NONE",
                            nodes |-> <<>>, entries |-> <<>>, aliases |-> aliases, refs |-> {}, err |-> aerr, warns |-> <<>>, module |-> FALSE]
 Fail(c, msg) == [c EXCEPT !.err = msg]
-Switch(c, new) == IF c.st = new THEN Fail(c, "abort: state_switch: assertion failed: (ctx->state != newstate)")
+Switch(c, new) == IF c.st = new THEN Fail(c, "abort: state_switch: assertion failed: (ctx->state != newstate)")   \* = AbortSameState
                   ELSE [c EXCEPT !.prev = c.st, !.st = new, !.depth = IF new = "PASSTHROUGH" THEN 1 ELSE @]
 Missing(c, el, attr) == Fail(c, "error: The attribute '" \o attr \o "' on the element '" \o el \o "' must be specified")
 Top(c) == c.stack[Len(c.stack)]
@@ -246,23 +256,22 @@ RefOf(c, name) == LET r == Resolved(c, name) IN
                   IF r \in BasicNames \/ r \in {"GLib.List", "GLib.SList", "GLib.HashTable", "GLib.Error"} THEN {} ELSE {r}
 
 (* ---- the first pass: firstpass_start_element_handler (aliases; disguised / pointer records are beside the point) *)
-RECURSIVE FirstPass(_, _, _, _, _)
-\* -> [map, err]; cur = name of the alias being read ("" none), skipd = depth inside a skipped alias when the pass honours the marking
-FirstPass(doc, i, cur, map, err) ==
-    IF i > Len(doc) \/ err # "" THEN [map |-> map, err |-> err]
-    ELSE LET ev == doc[i] IN
-         IF ev.e = "s" /\ ev.tag = "alias" THEN
-             IF ~Dev("alias_first_pass") /\ ~IsIntro(ev.at) THEN FirstPass(doc, i + 1, "\\skipped", map, err)
-             ELSE IF ~Has(ev.at, "name") THEN FirstPass(doc, i + 1, "", map, "error: The attribute 'name' on the element 'alias' must be specified")
-             ELSE FirstPass(doc, i + 1, Get(ev.at, "name"), map, err)
-         ELSE IF ev.e = "s" /\ ev.tag = "type" /\ cur \notin {"", "\\skipped"} THEN
-             IF ~Has(ev.at, "name") THEN FirstPass(doc, i + 1, cur, map, "error: The attribute 'name' on the element 'type' must be specified")
-             ELSE LET n == Get(ev.at, "name")
-                      v == IF n \in BasicNames \/ HasDot(n) THEN n ELSE "Foo." \o n IN
-                  FirstPass(doc, i + 1, "", ("Foo." \o cur) :> v @@ map, err)
-         ELSE IF ev.e = "e" /\ ev.tag = "alias" THEN FirstPass(doc, i + 1, "", map, err)
-         ELSE FirstPass(doc, i + 1, cur, map, err)
 EmptyMap == [x \in {} |-> ""]
+\* accumulator [cur, map, err]: cur = name of the alias being read ("" none, "\\skipped" inside an alias the pass leaves alone)
+FirstPassStep(acc, ev) ==
+    IF acc.err # "" THEN acc
+    ELSE IF ev.e = "s" /\ ev.tag = "alias" THEN
+        IF ~Dev("alias_first_pass") /\ ~IsIntro(ev.at) THEN [acc EXCEPT !.cur = "\\skipped"]
+        ELSE IF ~Has(ev.at, "name") THEN [acc EXCEPT !.err = "error: The attribute 'name' on the element 'alias' must be specified"]
+        ELSE [acc EXCEPT !.cur = Get(ev.at, "name")]
+    ELSE IF ev.e = "s" /\ ev.tag = "type" /\ acc.cur \notin {"", "\\skipped"} THEN
+        IF ~Has(ev.at, "name") THEN [acc EXCEPT !.err = "error: The attribute 'name' on the element 'type' must be specified"]
+        ELSE LET n == Get(ev.at, "name")
+                 v == IF n \in BasicNames \/ HasDot(n) THEN n ELSE "Foo." \o n IN
+             [acc EXCEPT !.cur = "", !.map = ("Foo." \o acc.cur) :> v @@ @]
+    ELSE IF ev.e = "e" /\ ev.tag = "alias" THEN [acc EXCEPT !.cur = ""]
+    ELSE acc
+FirstPass(doc) == FoldLeft(FirstPassStep, [cur |-> "", map |-> EmptyMap, err |-> ""], doc)
 
 (* ---- the flag defaults of the start_* functions, node records in the vocabulary of AcceptProp's b.cands *)
 TransferOK(at) == Has(at, "transfer-ownership") /\ Get(at, "transfer-ownership") \in {"none", "container", "full"}
@@ -594,9 +603,12 @@ LookupMember(c, owner, kind, name) ==
     IF \E i \in ms : c.nodes[i].name = name THEN name
     ELSE IF ms = {} THEN "\\unknown"
     ELSE IF Dev("silent_index") THEN c.nodes[CHOOSE i \in ms : \A j \in ms : j <= i].name ELSE "\\unknown"
-BuildErrors(c) ==
+\* fields that end up with neither a type nor a callback
+BuildErrorsNull(c) ==
+    {"ERROR: Caught NULL node, parent=" \o c.nodes[i].name : i \in {i \in 1..Len(c.nodes) : c.nodes[i].kind = "field" /\ ~c.nodes[i].fl.typed /\ ~c.nodes[i].fl.cb}}
+\* names the build cannot resolve: local type references, accessors, invokers
+BuildErrorsUnresolved(c) ==
     {"error: type reference '" \o r \o "' not found" : r \in {r \in c.refs : r \notin EntryNames(c)}}
-    \cup {"ERROR: Caught NULL node, parent=" \o c.nodes[i].name : i \in {i \in 1..Len(c.nodes) : c.nodes[i].kind = "field" /\ ~c.nodes[i].fl.typed /\ ~c.nodes[i].fl.cb}}
     \cup {"ERROR: Unknown setter " \o c.nodes[i].fl.setter : i \in {i \in 1..Len(c.nodes) : c.nodes[i].kind = "property" /\ c.nodes[i].fl.setter # ""
                                                                      /\ LookupMember(c, c.nodes[i].owner, "function", c.nodes[i].fl.setter) = "\\unknown"}}
     \cup {"ERROR: Unknown getter " \o c.nodes[i].fl.getter : i \in {i \in 1..Len(c.nodes) : c.nodes[i].kind = "property" /\ c.nodes[i].fl.getter # ""
@@ -606,6 +618,8 @@ BuildErrors(c) ==
                                     /\ LookupMember(c, c.nodes[i].owner, "property", c.nodes[i].fl.propName) = "\\unknown"}}
     \cup {"ERROR: Unknown member function for vfunc " \o c.nodes[i].name : i \in {i \in 1..Len(c.nodes) : c.nodes[i].kind = "vfunc" /\ c.nodes[i].fl.invoker # ""
                                     /\ LookupMember(c, c.nodes[i].owner, "function", c.nodes[i].fl.invoker) = "\\unknown"}}
+BuildErrors(c) == BuildErrorsNull(c) \cup BuildErrorsUnresolved(c)
+AbortSameState == "abort: state_switch: assertion failed: (ctx->state != newstate)"
 
 (* ---- what the typelib exposes, in the vocabulary of AcceptProp's b records (what harness/c15lib.py reads off the decoded file) *)
 Blob(c, i) ==
@@ -623,11 +637,13 @@ Blob(c, i) ==
 SectionKinds(tag) == KindOf(tag, "member")
 Cands(c, g) ==
     LET names == {g.name} \cup (IF g.shadows # "" THEN {g.shadows} ELSE {}) IN
-    IF g.level = "top" THEN [ownerFound |-> TRUE, ownerKind |-> "",
+    IF g.level = "top" THEN [ownerFound |-> TRUE, ownerKind |-> "", ownerMethods |-> <<>>, ownerProps |-> <<>>,
                              cands |-> SetToSeq({Blob(c, c.entries[i]) : i \in {i \in 1..Len(c.entries) : c.nodes[c.entries[i]].name \in names}})]
-    ELSE LET os == {c.entries[i] : i \in {i \in 1..Len(c.entries) : c.nodes[c.entries[i]].name = g.owner}} IN
-         IF os = {} THEN [ownerFound |-> FALSE, ownerKind |-> "", cands |-> <<>>]
+    ELSE LET os == {c.entries[i] : i \in {i \in 1..Len(c.entries) : c.nodes[c.entries[i]].name = g.owner}}
+             named(k) == SetToSeq({c.nodes[i].name : i \in {i \in 1..Len(c.nodes) : c.nodes[i].owner \in os /\ c.nodes[i].kind = k}}) IN
+         IF os = {} THEN [ownerFound |-> FALSE, ownerKind |-> "", cands |-> <<>>, ownerMethods |-> <<>>, ownerProps |-> <<>>]
          ELSE [ownerFound |-> TRUE, ownerKind |-> c.nodes[CHOOSE o \in os : TRUE].kind,
+               ownerMethods |-> named("function"), ownerProps |-> named("property"),
                cands |-> SetToSeq({Blob(c, i) : i \in {i \in 1..Len(c.nodes) : c.nodes[i].owner \in os /\ c.nodes[i].name \in names
                                                                                /\ c.nodes[i].kind \in SectionKinds(g.tag)}})]
 =============================================================================
